@@ -604,6 +604,24 @@ def rule_l3(chk: Check, ix: Index):
 
 
 def rule_l4(chk: Check, ix: Index):
+    # where a line end becomes NL (no statement boundary) rather than NEWLINE: only the blank / comment-only line at the start of a
+    # statement, and a line end inside brackets.  Any other site that emits NL unconditionally turns a statement boundary into
+    # nothing (a blank line after a backslash continuation at depth 0 must end the logical line).
+    for q, g in sorted(ix.funcs.items()):
+        if g.rel != repo.TOKENIZE:
+            continue
+        for n in own_nodes(g.node):
+            if not (isinstance(n, ast.Attribute) and norm_stmt(n) == "Token.NL"):
+                continue
+            chk.count("L4-block-structure")
+            # the conditional form `NL if <depth test> else NEWLINE`
+            cond_ok = any(isinstance(e, ast.IfExp) and any(n is x for x in ast.walk(e.body)) and "parenlev" in norm_stmt(e.test)
+                          and "Token.NEWLINE" in norm_stmt(e.orelse) for e in own_nodes(g.node))
+            guard_ok = any(isinstance(i, ast.If) and "parenlev" in norm_stmt(i.test) and any(n is x for b in i.body for x in ast.walk(b))
+                           for i in own_nodes(g.node))
+            chk.require(g.node.name == "next_statement" or cond_ok or guard_ok, "L4-block-structure", f"{q}:nl-site", f"{g.rel}:{n.lineno}",
+                        f"`{q}` emits NL for a line end without consulting the bracket depth: outside brackets (after a backslash "
+                        f"continuation) that line end is the NEWLINE that ends the statement")
     ns = ix.get("next_statement")
     body = ns.node.body
     # INDENT iff push
